@@ -7,6 +7,8 @@ pub mod c01;
 pub mod c02;
 pub mod c03;
 pub mod c04;
+pub mod c05;
+pub mod c06;
 pub mod c07;
 pub mod pw;
 pub mod c08;
@@ -15,6 +17,8 @@ pub mod c14;
 pub mod c15;
 pub mod c16;
 pub mod c17;
+pub mod c18;
+pub mod c19;
 
 #[derive(Default, Debug)]
 pub struct OracleResult {
